@@ -97,6 +97,10 @@ def unit_frame(tier, seed):
     return run_verus_unit('frame', 'frame.vt')
 
 
+def unit_crc(tier, seed):
+    return run_verus_unit('crc', 'crc.vt')
+
+
 def unit_sigtab(tier, seed):
     import unit_sigtab
     return run_verus_unit('sigtab', None, builder=unit_sigtab.build)
@@ -121,6 +125,7 @@ UNITS = {}
 UNITS['l1int'] = unit_l1int
 UNITS['l1enc'] = unit_l1enc
 UNITS['frame'] = unit_frame
+UNITS['crc'] = unit_crc
 UNITS['sigtab'] = unit_sigtab
 UNITS['l0bits'] = unit_l0bits
 
@@ -191,6 +196,7 @@ UNITS['bs_msgs'] = unit_bs_msgs
 # property -> units that carry obligations tagged with it
 PROPERTY_UNITS = {}
 PROPERTY_UNITS['C03'] = ['frame']
+PROPERTY_UNITS['C04'] = ['crc', 'frame']
 PROPERTY_UNITS['C05'] = ['frame']
 PROPERTY_UNITS['C06'] = ['frame']
 PROPERTY_UNITS['C13'] = ['frame']
